@@ -1,6 +1,7 @@
-(** C18: clauses the faithful model refutes, kept as findings (each closed by
-    vm_compute in proofs/ServiceProofs.v), and the witnesses showing that the
-    hypotheses of the theorems of C18.v are needed. *)
+(** C18: the former findings of this property, all repaired in /repo, as
+    concrete examples (each closed by vm_compute in proofs/ServiceProofs.v),
+    and the witnesses showing that the hypotheses of the theorems of C18.v
+    are needed. *)
 From Verif Require Import Json Outcome Service CorrService ServiceSpec ServiceProofs.
 (** D24 (repaired): an empty body is a 400. *)
 Definition empty_body_repaired := empty_body_is_400.
@@ -10,12 +11,12 @@ Definition nonstring_uri_repaired := nonstring_uri_is_error.
 Definition envelope_nonstring_uri_checked := envelope_nonstring_uri_is_400.
 (** D61 (repaired): an empty text of a json-typed parameter is a 400. *)
 Definition empty_typed_param_repaired := empty_typed_param_is_400.
-(** D62: /api/loc/facts/take and /replace throw the results of their inner
-    requests away: missing parameters and failing operations report success. *)
-Definition composite_swallows_errors_refuted := composite_swallows_errors_counterexample.
-(** D63: getter errors that are never looked at (required "code" of
-    /api/loc/util/js; optional "id" of facts/add and rules/add). *)
-Definition unchecked_getter_refuted := unchecked_getter_counterexample.
+(** D62 (repaired): /api/loc/facts/take and /replace return the errors of
+    their inner requests; replace without a fact takes nothing. *)
+Definition composite_errors_repaired := composite_errors_are_reported.
+(** D63 (repaired): a missing "code" of /api/loc/util/js and an ill-typed
+    optional "id" of facts/add, rules/add are errors; an absent id is fine. *)
+Definition getter_errors_repaired := getter_errors_are_reported.
 (** The hypotheses of decode_render are needed: a "uri" member of a body
     overrides the path; an empty form is an empty body; a map under an
     undeclared name stays text in a query string. *)
